@@ -538,6 +538,26 @@ class Inliner:
     def gen_body(self, h, call, recv, on_yield, on_yield_from=None):
         """generator helper body with every `yield e` statement replaced by on_yield(e, yield_stmt)"""
         pre, body = self._bind_params(h, call, recv)
+        # `return` in a generator ends the generator: inside the loop that is the last statement of the helper (and not inside a further
+        # loop) that is `break`; as the very last statement it is nothing at all
+        if body and isinstance(body[-1], ast.Return) and body[-1].value is None:
+            body = body[:-1] or [ast.Pass()]
+        if body and isinstance(body[-1], (ast.For, ast.While)) and not body[-1].orelse:
+            def to_break(stmts):
+                for k, st_ in enumerate(stmts):
+                    if isinstance(st_, ast.Return) and st_.value is None:
+                        stmts[k] = ast.copy_location(ast.Break(), st_)
+                    elif isinstance(st_, (ast.For, ast.While, ast.FunctionDef, ast.ClassDef)):
+                        continue
+                    else:
+                        for fld_ in ('body', 'orelse', 'finalbody'):
+                            b_ = getattr(st_, fld_, None)
+                            if isinstance(b_, list):
+                                to_break(b_)
+                        if isinstance(st_, ast.Try):
+                            for h_ in st_.handlers:
+                                to_break(h_.body)
+            to_break(body[-1].body)
 
         def rec(stmts):
             out = []
